@@ -12,9 +12,17 @@ package apache
 
 //@ func compareQualifiers
 //@   comparator (q1, n1) ~ (q2, n2)                       [C01]
+//@   ensures both-release: q1 == "" && q2 == "" ==> result == 0              [C03]
+//@   ensures release-wins: q1 == "" && q2 != "" ==> result == 1              [C03]
+//@   ensures qualifier-loses: q1 != "" && q2 == "" ==> result == -1          [C03]
+//@   ensures same-qualifier: q1 != "" && q1 == q2 ==> result == (n1 < n2 ? -1 : (n1 > n2 ? 1 : 0))   [C03]
 
 //@ func (*Version).Compare
-//@   comparator v ~ other                                 [C01]    
+//@   comparator v ~ other                                 [C01]
+//@   ensures major: v.major != other.major ==> result == (v.major < other.major ? -1 : 1)                                             [C03]
+//@   ensures minor: v.major == other.major && v.minor != other.minor ==> result == (v.minor < other.minor ? -1 : 1)                   [C03]
+//@   ensures patch: v.major == other.major && v.minor == other.minor && v.patch != other.patch ==> result == (v.patch < other.patch ? -1 : 1)   [C03]
+//@   ensures qualifier: v.major == other.major && v.minor == other.minor && v.patch == other.patch ==> result == compareQualifiers(v.qualifier, v.number, other.qualifier, other.number)   [C03]
 
 // ---- constructors: value xor error (C06); the fact is structural (untagged) because callers rely on it
 
